@@ -10,6 +10,7 @@ Variable re_ok : string -> bool.
 Variable re_match : string -> string -> option bool.
 Variable re_numsubexp : string -> nat.
 Variable re_replace_all : string -> string -> string -> string.
+Variable hcode : tree -> node -> N.
 
 Definition compile_fuel (fuel : nat) (text : string) (ns : nsmap) : cres query :=
   if String.eqb text "" then Err "expr expression is nil"
@@ -29,11 +30,11 @@ Definition must_compile (text : string) : query :=
 
 (* Expr.Select + draining the iterator *)
 Definition select (D : tree) (has_ns : bool) (q : query) (c : node) : outcome (list node) :=
-  do l <- sel D has_ns re_match re_numsubexp re_replace_all q c; Val (nodes_of l).
+  do l <- sel D has_ns (hcode D) re_match re_numsubexp re_replace_all q c; Val (nodes_of l).
 
 (* Expr.Evaluate (a node-set result is the drained iterator) *)
 Definition evaluate (D : tree) (has_ns : bool) (q : query) (c : node) : outcome value :=
-  match eval D has_ns re_match re_numsubexp re_replace_all q c with
+  match eval D has_ns (hcode D) re_match re_numsubexp re_replace_all q c with
   | Val (VNodes _) => do l <- select D has_ns q c; Val (VNodes (unnumbered l))
   | r => r
   end.
